@@ -330,6 +330,9 @@ void BppODiscreteDistributionFormat::writeDiscreteDistribution(
       out << ",";
     out << "n="  << dist.getNumberOfCategories();
     comma = true;
+    // The bounds of a uniform distribution are not parameters but are required by the reader:
+    if (dynamic_cast<const UniformDiscreteDistribution*>(&dist))
+      out << ",begin=" << dist.getLowerBound() << ",end=" << dist.getUpperBound();
   }
 
   try
